@@ -558,6 +558,9 @@ fn connack_policy(w: &mut World, conn: usize, clean_start: bool, need_id: bool) 
         // number of exchanges the resumed session still has under way
         rm = w.final_small_rm;
     }
+    if let Some(v) = w.force_next_mps.take() {
+        mps = Some(v);
+    }
     let assign = need_id || (small && pick(w, t, 16, 8) == 0);
     if let Some(v) = rm {
         props.push(Prop { id: 0x21, val: PVal::U16(v) });
